@@ -609,4 +609,488 @@ example :
   refine ⟨_, rfl, ?_⟩
   decide
 
+/-! ## 5. TAP001: the kill chain is walked in order -/
+namespace Tap1
+
+/-- Successor in the kill chain: `DOWNLOAD → INSTALL → ACTIVATE → PROPAGATE → COMMAND_AND_CONTROL → PAYLOAD → SUCCEEDED`,
+`NOT_STARTED →` first stage, `SUCCEEDED → NOT_STARTED`. -/
+def Stage.succ : Stage → Stage
+  | .download => .install | .install => .activate | .activate => .propagate | .propagate => .c2
+  | .c2 => .payload | .payload => .succeeded | .notStarted => .download | .succeeded => .notStarted | .failed => .failed
+
+def Stage.chain : Stage → Bool
+  | .download | .install | .activate | .propagate | .c2 | .payload => true
+  | _ => false
+
+/-- `next_kill_chain_stage` is the successor of `current_kill_chain_stage` (nothing is claimed once FAILED). -/
+def Inv (s : St) : Prop := s.cur = .failed ∨ s.nxt = s.cur.succ
+
+/-- What one tick may do to `current_kill_chain_stage`. -/
+def Allowed (c : Cfg) (a b : Stage) : Prop :=
+  b = a ∨ (a.chain = true ∧ b = a.succ) ∨ b = .failed ∨ (a = .notStarted ∧ b = .download) ∨
+  (c.repeatKillChain = true ∧ (a = .succeeded ∨ a = .failed) ∧ (b = .notStarted ∨ b = .download)) ∨
+  (c.repeatKillChain = true ∧ c.repeatStages = false ∧ b = .notStarted)
+
+/-- Result of the body of stage `x`: stay, advance to the successor, or fail. -/
+def Res (x : Stage) (s : St) : Prop :=
+  (s.cur = x ∧ s.nxt = x.succ) ∨ (s.cur = x.succ ∧ s.nxt = x.succ.succ) ∨ s.cur = .failed
+
+theorem progress_spec (s : St) (x : Stage) (hx : x.chain = true) (hn : s.nxt = x.succ)
+    (hc : s.cur = x ∨ (s.cur = .failed ∧ x ≠ .c2)) :
+    (progress s).cur = x.succ ∧ (progress s).nxt = x.succ.succ ∧ (progress s).err = s.err := by
+  cases x <;> simp [Stage.chain] at hx <;> rcases hc with hc | ⟨hc, hne⟩ <;>
+    simp_all [progress, Stage.succ, Stage.ofVal?, Stage.all, Stage.val, St.raise]
+
+/-- `f` leaves `nxt` alone and either leaves `cur` alone or sets it to FAILED. -/
+def Soft (f : St → St) : Prop := ∀ s, ((f s).cur = s.cur ∨ (f s).cur = .failed) ∧ (f s).nxt = s.nxt
+
+theorem Soft.comp {f g : St → St} (hf : Soft f) (hg : Soft g) : Soft (fun s => g (f s)) := by
+  intro s
+  obtain ⟨h1, h2⟩ := hf s
+  obtain ⟨h3, h4⟩ := hg (f s)
+  refine ⟨?_, by rw [h4, h2]⟩
+  rcases h3 with h3 | h3
+  · rcases h1 with h1 | h1
+    · exact Or.inl (by rw [h3, h1])
+    · exact Or.inr (by rw [h3, h1])
+  · exact Or.inr h3
+
+theorem soft_failStage (c : Cfg) : Soft (failStage c) := by
+  intro s; unfold failStage; split <;> simp
+
+theorem soft_setNext (c : Cfg) (b d : Int) : Soft (fun s => setNext c s b d) := by
+  intro s; simp only [setNext, St.raise]; split <;> simp
+
+theorem soft_payloadContinue : Soft payloadContinue := by
+  intro s; unfold payloadContinue payloadHandler; repeat' split
+  all_goals simp
+
+theorem soft_payloadEnter (c : Cfg) (i : In) : Soft (payloadEnter c i) := by
+  intro s; unfold payloadEnter
+  split
+  · split
+    · simp
+    · exact soft_failStage c _
+  · simp
+
+theorem soft_updateNextScanTarget (c : Cfg) (i : In) (e : Bool) : Soft (updateNextScanTarget c i e) := by
+  intro s; unfold updateNextScanTarget; repeat' split
+  all_goals simp
+
+theorem soft_scanResponseHandler (c : Cfg) (i : In) (r : Resp) : Soft (scanResponseHandler c i r) := by
+  intro s; unfold scanResponseHandler
+  split
+  · split <;> simp
+  · split
+    · simp
+    · exact soft_updateNextScanTarget c i _ _
+
+theorem soft_scanMark (prev : Hist) : Soft (scanMark prev) := by
+  intro s; unfold scanMark; split <;> simp
+
+theorem soft_scanAbsorb (c : Cfg) (i : In) (prev : Hist) : Soft (scanAbsorb c i prev) := by
+  intro s; unfold scanAbsorb; split
+  · exact soft_scanResponseHandler c i _ s
+  · simp
+
+theorem soft_scanLogic : Soft (fun s => (scanLogic s).1) := by
+  intro s; simp only [scanLogic]; repeat' split
+  all_goals simp
+
+theorem soft_scanAction (ty : ScanType) : Soft (scanAction ty) := by
+  intro s; unfold scanAction; split <;> simp
+
+theorem soft_scanProgress : Soft (fun s => (scanProgress s).1) := by
+  intro s; simp only [scanProgress]; repeat' split
+  all_goals simp
+
+theorem soft_scanDecide (c : Cfg) : Soft (fun s => (scanDecide c s).1) := by
+  intro s
+  simp only [scanDecide]
+  split
+  · exact soft_failStage c _
+  · exact (Soft.comp soft_scanLogic (Soft.comp (soft_scanAction (scanLogic s).2) soft_scanProgress)) s
+
+theorem soft_scanHandler (c : Cfg) (i : In) : Soft (fun s => (scanHandler c i s).1) := by
+  intro s
+  simp only [scanHandler]
+  split
+  · simp [St.raise]
+  · split
+    · simp [St.raise]
+    · rename_i prev _
+      have := (Soft.comp (soft_scanMark prev) (Soft.comp (soft_scanAbsorb c i prev) (soft_scanDecide c)))
+        { s with lastScanTs := s.lastScanTs.dropLast ++ [s.curT] }
+      simpa using this
+
+theorem soft_propagatePrep : Soft propagatePrep := by
+  intro s; unfold propagatePrep propagateReset; split <;> simp
+
+theorem soft_propagateFirstScan : Soft propagateFirstScan := by
+  intro s; simp [propagateFirstScan]
+
+theorem soft_downloadAct : Soft downloadAct := by
+  intro s; unfold downloadAct; repeat' split
+  all_goals simp
+
+/-- After a soft prefix, `progressIfFinished` yields a `Res`. -/
+theorem res_of_soft (x : Stage) (hx : x.chain = true) (hne : x ≠ .c2) (s' s : St)
+    (hs : (s'.cur = s.cur ∨ s'.cur = .failed) ∧ s'.nxt = s.nxt) (h : s.cur = x) (hn : s.nxt = x.succ) :
+    Res x (progressIfFinished s') := by
+  unfold progressIfFinished
+  have hn' : s'.nxt = x.succ := by rw [hs.2, hn]
+  split
+  · have hc : s'.cur = x ∨ (s'.cur = .failed ∧ x ≠ .c2) := by
+      rcases hs.1 with h1 | h1
+      · exact Or.inl (by rw [h1, h])
+      · exact Or.inr ⟨h1, hne⟩
+    have := progress_spec s' x hx hn' hc
+    exact Or.inr (Or.inl ⟨this.1, this.2.1⟩)
+  · rcases hs.1 with h1 | h1
+    · exact Or.inl ⟨by rw [h1, h], hn'⟩
+    · exact Or.inr (Or.inr h1)
+
+theorem res_of_soft_noprogress (x : Stage) (s' s : St)
+    (hs : (s'.cur = s.cur ∨ s'.cur = .failed) ∧ s'.nxt = s.nxt) (h : s.cur = x) (hn : s.nxt = x.succ) :
+    Res x s' := by
+  rcases hs.1 with h1 | h1
+  · exact Or.inl ⟨by rw [h1, h], by rw [hs.2, hn]⟩
+  · exact Or.inr (Or.inr h1)
+
+/-! skip / fire lemmas of the seven stage methods -/
+
+theorem payload_skip (c : Cfg) (i : In) (s : St) (h : s.cur ≠ .payload) : payload c i s = s := by simp [payload, h]
+theorem c2c_skip (c : Cfg) (i : In) (s : St) (h : s.cur ≠ .c2) : c2c c i s = s := by simp [c2c, h]
+theorem propagate_skip (c : Cfg) (i : In) (s : St) (h : s.cur ≠ .propagate) : propagate c i s = s := by simp [propagate, h]
+theorem activate_skip (s : St) (h : s.cur ≠ .activate) : activate s = s := by simp [activate, h]
+theorem install_skip (s : St) (h : s.cur ≠ .install) : install s = s := by simp [install, h]
+theorem download_skip (s : St) (h : s.cur ≠ .download) : download s = s := by simp [download, h]
+theorem tapStart_skip (s : St) (h : s.cur ≠ .notStarted) : tapStart s = s := by simp [tapStart, h]
+
+theorem payload_fire (c : Cfg) (i : In) (s : St) (h : s.cur = .payload) (hn : s.nxt = Stage.succ .payload) :
+    Res .payload (payload c i s) := by
+  unfold payload
+  rw [if_neg (by simp [h])]
+  exact res_of_soft .payload rfl (by decide) _ s
+    ((Soft.comp soft_payloadContinue (soft_payloadEnter c i)) s) h hn
+
+theorem c2c_fire (c : Cfg) (i : In) (s : St) (h : s.cur = .c2) (hn : s.nxt = Stage.succ .c2) :
+    Res .c2 (c2c c i s) := by
+  unfold c2c
+  rw [if_neg (by simp [h])]
+  split
+  · split
+    · exact Or.inl ⟨h, hn⟩
+    · exact res_of_soft_noprogress .c2 _ s
+        ((Soft.comp (fun s => by simp : Soft (fun s => { s with chosen := Act.nothing })) (soft_failStage c)) s) h hn
+  · split
+    · split
+      · exact Or.inl ⟨h, hn⟩
+      · have := progress_spec { s with chosen := { kind := .executeC2, host := s.host } } .c2 rfl hn (Or.inl h)
+        exact Or.inr (Or.inl ⟨this.1, this.2.1⟩)
+    · exact Or.inl ⟨h, hn⟩
+
+theorem propagate_fire (c : Cfg) (i : In) (s : St) (h : s.cur = .propagate) (hn : s.nxt = Stage.succ .propagate) :
+    Res .propagate (propagate c i s) := by
+  unfold propagate
+  rw [if_neg (by simp [h])]
+  split
+  · refine res_of_soft .propagate rfl (by decide) _ s ?_ h hn
+    have := soft_scanHandler c i s
+    simpa using this
+  · split
+    · exact res_of_soft_noprogress .propagate _ s ((Soft.comp soft_propagatePrep soft_propagateFirstScan) s) h hn
+    · exact res_of_soft_noprogress .propagate _ s
+        ((Soft.comp (fun s => by simp : Soft (fun s => { s with chosen := Act.nothing })) (soft_failStage c)) s) h hn
+
+theorem activate_fire (s : St) (h : s.cur = .activate) (hn : s.nxt = Stage.succ .activate) : Res .activate (activate s) := by
+  unfold activate
+  rw [if_neg (by simp [h])]
+  have := progress_spec { s with host := .start, prog := .finished, chosen := { kind := .installRansomware, host := .start } }
+    .activate rfl hn (Or.inl h)
+  exact Or.inr (Or.inl ⟨this.1, this.2.1⟩)
+
+theorem install_fire (s : St) (h : s.cur = .install) (hn : s.nxt = Stage.succ .install) : Res .install (install s) := by
+  unfold install
+  rw [if_neg (by simp [h])]
+  have := progress_spec { s with host := .start, chosen := { kind := .fileAccess, host := .start } } .install rfl hn (Or.inl h)
+  exact Or.inr (Or.inl ⟨this.1, this.2.1⟩)
+
+theorem download_fire (s : St) (h : s.cur = .download) (hn : s.nxt = Stage.succ .download) : Res .download (download s) := by
+  unfold download
+  rw [if_neg (by simp [h])]
+  exact res_of_soft .download rfl (by decide) _ s (soft_downloadAct s) h hn
+
+theorem tapStart_fire (s : St) (h : s.cur = .notStarted) :
+    (tapStart s).cur = .download ∧ (tapStart s).nxt = .install := by
+  simp [tapStart, h, Stage.ofVal?, Stage.all, Stage.val]
+
+/-! composition of the stage methods in the order `get_action` calls them -/
+
+def rank : Stage → Nat
+  | .notStarted => 0 | .download => 1 | .install => 2 | .activate => 3 | .propagate => 4 | .c2 => 5 | .payload => 6
+  | .succeeded => 7 | .failed => 7
+
+def bodyAt (c : Cfg) (i : In) : Nat → St → St
+  | 0 => tapStart | 1 => download | 2 => install | 3 => activate | 4 => propagate c i | 5 => c2c c i | 6 => payload c i
+  | _ => id
+
+def applyDown (c : Cfg) (i : In) : Nat → St → St
+  | 0, s => bodyAt c i 0 s
+  | r + 1, s => applyDown c i r (bodyAt c i (r + 1) s)
+
+/-- `get_action` calls the stage methods from the last stage down to `_tap_start`. -/
+theorem bodies_eq (c : Cfg) (i : In) (s : St) : bodies c i s = applyDown c i 6 s := rfl
+
+theorem bodyAt_skip (c : Cfg) (i : In) (r : Nat) (s : St) (h : rank s.cur ≠ r) : bodyAt c i r s = s := by
+  match r with
+  | 0 => exact tapStart_skip s (by intro hc; simp [hc, rank] at h)
+  | 1 => exact download_skip s (by intro hc; simp [hc, rank] at h)
+  | 2 => exact install_skip s (by intro hc; simp [hc, rank] at h)
+  | 3 => exact activate_skip s (by intro hc; simp [hc, rank] at h)
+  | 4 => exact propagate_skip c i s (by intro hc; simp [hc, rank] at h)
+  | 5 => exact c2c_skip c i s (by intro hc; simp [hc, rank] at h)
+  | 6 => exact payload_skip c i s (by intro hc; simp [hc, rank] at h)
+  | _ + 7 => rfl
+
+theorem applyDown_skip (c : Cfg) (i : In) : ∀ (r : Nat) (s : St), r < rank s.cur → applyDown c i r s = s := by
+  intro r
+  induction r with
+  | zero => intro s h; exact bodyAt_skip c i 0 s (by omega)
+  | succ r ih =>
+    intro s h
+    simp only [applyDown]
+    rw [bodyAt_skip c i (r + 1) s (by omega)]
+    exact ih s (by omega)
+
+theorem applyDown_reach (c : Cfg) (i : In) (s : St) :
+    ∀ (r : Nat), rank s.cur ≤ r → applyDown c i r s = applyDown c i (rank s.cur) s := by
+  intro r
+  induction r with
+  | zero => intro h; have : rank s.cur = 0 := by omega
+            rw [this]
+  | succ r ih =>
+    intro h
+    rcases Nat.lt_or_ge (rank s.cur) (r + 1) with hlt | hge
+    · simp only [applyDown]
+      rw [bodyAt_skip c i (r + 1) s (by omega)]
+      exact ih (by omega)
+    · have : rank s.cur = r + 1 := by omega
+      rw [this]
+
+theorem bodyAt_fire (c : Cfg) (i : In) (x : Stage) (hx : x.chain = true) (s : St) (h : s.cur = x) (hn : s.nxt = x.succ) :
+    Res x (bodyAt c i (rank x) s) := by
+  cases x <;> simp [Stage.chain] at hx
+  · exact download_fire s h hn
+  · exact install_fire s h hn
+  · exact activate_fire s h hn
+  · exact propagate_fire c i s h hn
+  · exact c2c_fire c i s h hn
+  · exact payload_fire c i s h hn
+
+theorem res_rank (x : Stage) (hx : x.chain = true) (s : St) (h : Res x s) : rank x ≤ rank s.cur := by
+  rcases h with ⟨h, _⟩ | ⟨h, _⟩ | h <;> rw [h] <;> cases x <;> simp_all [Stage.chain, rank, Stage.succ]
+
+/-- From a kill-chain stage `x` the stage methods together stay, advance to the successor of `x`, or fail. -/
+theorem bodies_chain (c : Cfg) (i : In) (x : Stage) (hx : x.chain = true) (s : St) (h : s.cur = x) (hn : s.nxt = x.succ) :
+    Res x (bodies c i s) := by
+  have hr : 1 ≤ rank x ∧ rank x ≤ 6 := by cases x <;> simp_all [Stage.chain, rank]
+  rw [bodies_eq, applyDown_reach c i s 6 (by rw [h]; exact hr.2), h]
+  obtain ⟨k, hk⟩ : ∃ k, rank x = k + 1 := ⟨rank x - 1, by omega⟩
+  have hfire := bodyAt_fire c i x hx s h hn
+  have hrk := res_rank x hx _ hfire
+  rw [hk] at hfire hrk ⊢
+  simp only [applyDown]
+  rw [applyDown_skip c i k _ (by omega)]
+  exact hfire
+
+theorem bodies_notStarted (c : Cfg) (i : In) (s : St) (h : s.cur = .notStarted) :
+    (bodies c i s).cur = .download ∧ (bodies c i s).nxt = .install := by
+  rw [bodies_eq, applyDown_reach c i s 6 (by rw [h]; simp [rank]), h]
+  exact tapStart_fire s h
+
+theorem bodies_terminal (c : Cfg) (i : In) (s : St) (h : s.cur = .succeeded ∨ s.cur = .failed) : bodies c i s = s := by
+  rw [bodies_eq]
+  exact applyDown_skip c i 6 s (by rcases h with h | h <;> rw [h] <;> simp [rank])
+
+/-! the whole tick -/
+
+theorem setNext_fields (c : Cfg) (s : St) (b d : Int) :
+    (setNext c s b d).cur = s.cur ∧ (setNext c s b d).nxt = s.nxt ∧ (setNext c s b d).concluded = s.concluded := by
+  simp only [setNext, St.raise]; split <;> simp
+
+theorem outcome_other (c : Cfg) (s : St) (h1 : s.cur ≠ .succeeded) (h2 : s.cur ≠ .failed) : outcomeHandler c s = s := by
+  simp [outcomeHandler, h1, h2]
+
+theorem outcome_terminal (c : Cfg) (s : St) (h : s.cur = .succeeded ∨ s.cur = .failed) (hc : s.concluded = false) :
+    (c.repeatKillChain = true → (outcomeHandler c s).cur = .notStarted ∧ (outcomeHandler c s).nxt = .download ∧
+        (outcomeHandler c s).concluded = false) ∧
+    (c.repeatKillChain = false → (outcomeHandler c s).cur = s.cur ∧ (outcomeHandler c s).nxt = s.nxt ∧
+        (outcomeHandler c s).concluded = true) := by
+  unfold outcomeHandler
+  rw [if_pos h]
+  simp only [hc, Bool.false_eq_true, if_false]
+  constructor
+  · intro hr; simp [hr]
+  · intro hr; simp [hr]
+
+theorem passes_returnHandler (c : Cfg) (h : Hist) (s : St) (hp : passes c h (returnHandler c h s) = true)
+    (hs : s.cur ≠ .failed) : returnHandler c h s = s := by
+  unfold returnHandler at hp ⊢
+  split
+  · rename_i hcond
+    rw [if_pos hcond] at hp
+    simp [passes, hcond.1] at hp
+  · rfl
+
+theorem returnHandler_soft (c : Cfg) (h : Hist) : Soft (returnHandler c h) := by
+  intro s; unfold returnHandler; split <;> simp
+
+theorem returnHandler_failed_iff (c : Cfg) (h : Hist) (s : St) (hne : (returnHandler c h s).cur ≠ s.cur) :
+    (returnHandler c h s).cur = .failed ∧ c.repeatStages = false := by
+  unfold returnHandler at hne ⊢
+  split
+  · rename_i hcond; exact ⟨rfl, by simpa using hcond.2⟩
+  · rename_i hcond; rw [if_neg hcond] at hne; exact absurd rfl hne
+
+theorem mainPath_stage (c : Cfg) (s : St) (t : Int) (i : In) (hinv : Inv s) (hcon : s.concluded = false) :
+    Allowed c s.cur (mainPath c s t i).cur ∧ Inv (mainPath c s t i) := by
+  unfold mainPath
+  generalize hs2 : setNext c { s with curT := t } (t + c.frequency) i.d1 = s2
+  have h2 : s2.cur = s.cur ∧ s2.nxt = s.nxt ∧ s2.concluded = false := by
+    subst hs2
+    have := setNext_fields c { s with curT := t } (t + c.frequency) i.d1
+    simpa [hcon] using this
+  by_cases hterm : s.cur = .succeeded ∨ s.cur = .failed
+  · have ht2 : s2.cur = .succeeded ∨ s2.cur = .failed := by rw [h2.1]; exact hterm
+    obtain ⟨hrep, hnorep⟩ := outcome_terminal c s2 ht2 h2.2.2
+    cases hr : c.repeatKillChain with
+    | true =>
+      obtain ⟨hc, hn, _⟩ := hrep hr
+      obtain ⟨hb1, hb2⟩ := bodies_notStarted c i _ hc
+      refine ⟨?_, Or.inr (by rw [hb1, hb2]; rfl)⟩
+      rw [hb1]
+      exact Or.inr (Or.inr (Or.inr (Or.inr (Or.inl ⟨hr, hterm, Or.inr rfl⟩))))
+    | false =>
+      obtain ⟨hc, hn, _⟩ := hnorep hr
+      have hterm3 : (outcomeHandler c s2).cur = .succeeded ∨ (outcomeHandler c s2).cur = .failed := by rw [hc]; exact ht2
+      rw [bodies_terminal c i _ hterm3, hc, h2.1]
+      refine ⟨Or.inl rfl, ?_⟩
+      unfold Inv
+      rw [hc, hn, h2.1, h2.2.1]
+      exact hinv
+  · have hns : s.cur ≠ .succeeded := fun h => hterm (Or.inl h)
+    have hnf : s.cur ≠ .failed := fun h => hterm (Or.inr h)
+    rw [outcome_other c s2 (by rw [h2.1]; exact hns) (by rw [h2.1]; exact hnf)]
+    have hnx : s2.nxt = s2.cur.succ := by
+      rcases hinv with h | h
+      · exact absurd h hnf
+      · rw [h2.1, h2.2.1]; exact h
+    by_cases hch : s.cur.chain = true
+    · have hres := bodies_chain c i s.cur hch s2 h2.1 (by rw [hnx, h2.1])
+      rcases hres with ⟨hc, hn⟩ | ⟨hc, hn⟩ | hc
+      · exact ⟨Or.inl hc, Or.inr (by rw [hc, hn])⟩
+      · exact ⟨Or.inr (Or.inl ⟨hch, hc⟩), Or.inr (by rw [hc, hn])⟩
+      · exact ⟨Or.inr (Or.inr (Or.inl hc)), Or.inl hc⟩
+    · have hnst : s.cur = .notStarted := by
+        cases hcur : s.cur <;> simp_all [Stage.chain]
+      obtain ⟨hb1, hb2⟩ := bodies_notStarted c i s2 (by rw [h2.1]; exact hnst)
+      refine ⟨?_, Or.inr (by rw [hb1, hb2]; rfl)⟩
+      rw [hb1]
+      exact Or.inr (Or.inr (Or.inr (Or.inl ⟨hnst, rfl⟩)))
+
+theorem failPath_stage (c : Cfg) (h : Hist) (s : St) (t : Int) (i : In) (hinv : Inv s) (hcon : s.concluded = false) :
+    Allowed c s.cur (failPath c (returnHandler c h s) t i).cur ∧ Inv (failPath c (returnHandler c h s) t i) := by
+  unfold failPath
+  generalize hs1 : returnHandler c h s = s1
+  have h1 := returnHandler_soft c h s
+  rw [hs1] at h1
+  have h1c : s1.concluded = false := by
+    subst hs1; unfold returnHandler; split <;> simp [hcon]
+  generalize hs2 : setNext c s1 (t + c.frequency) i.d1 = s2
+  have h2 : s2.cur = s1.cur ∧ s2.nxt = s1.nxt ∧ s2.concluded = false := by
+    subst hs2
+    have := setNext_fields c s1 (t + c.frequency) i.d1
+    simpa [h1c] using this
+  generalize hs3 : outcomeHandler c s2 = s3
+  have hfin : ∀ (s4 : St), s4 = setNext c { s3 with curT := t } (t + c.frequency) i.d2 →
+      s4.cur = s3.cur ∧ s4.nxt = s3.nxt := by
+    intro s4 h4
+    have := setNext_fields c { s3 with curT := t } (t + c.frequency) i.d2
+    rw [h4]; exact ⟨this.1, this.2.1⟩
+  obtain ⟨h4c, h4n⟩ := hfin _ rfl
+  unfold Inv
+  rw [h4c, h4n]
+  by_cases hterm : s1.cur = .succeeded ∨ s1.cur = .failed
+  · have ht2 : s2.cur = .succeeded ∨ s2.cur = .failed := by rw [h2.1]; exact hterm
+    obtain ⟨hrep, hnorep⟩ := outcome_terminal c s2 ht2 h2.2.2
+    rw [hs3] at hrep hnorep
+    cases hr : c.repeatKillChain with
+    | true =>
+      obtain ⟨hc, hn, _⟩ := hrep hr
+      rw [hc, hn]
+      refine ⟨?_, Or.inr rfl⟩
+      rcases h1.1 with he | hf
+      · rw [he] at hterm
+        exact Or.inr (Or.inr (Or.inr (Or.inr (Or.inl ⟨hr, hterm, Or.inl rfl⟩))))
+      · by_cases hsame : s1.cur = s.cur
+        · rw [hsame] at hterm
+          exact Or.inr (Or.inr (Or.inr (Or.inr (Or.inl ⟨hr, hterm, Or.inl rfl⟩))))
+        · have := returnHandler_failed_iff c h s (by rw [hs1]; exact hsame)
+          exact Or.inr (Or.inr (Or.inr (Or.inr (Or.inr ⟨hr, this.2, rfl⟩))))
+    | false =>
+      obtain ⟨hc, hn, _⟩ := hnorep hr
+      rw [hc, hn, h2.1, h2.2.1]
+      rcases h1.1 with he | hf
+      · refine ⟨Or.inl he, ?_⟩
+        rw [he, h1.2]; exact hinv
+      · exact ⟨Or.inr (Or.inr (Or.inl hf)), Or.inl hf⟩
+  · have hns : s1.cur ≠ .succeeded := fun h => hterm (Or.inl h)
+    have hnf : s1.cur ≠ .failed := fun h => hterm (Or.inr h)
+    have : s3 = s2 := by rw [← hs3]; exact outcome_other c s2 (by rw [h2.1]; exact hns) (by rw [h2.1]; exact hnf)
+    rw [this, h2.1, h2.2.1]
+    rcases h1.1 with he | hf
+    · refine ⟨Or.inl he, ?_⟩
+      rw [he, h1.2]; exact hinv
+    · exact absurd hf hnf
+
+/-- **One call of `TAP001.get_action` moves the stage only as `Allowed` says, and keeps `next = successor of current`.** -/
+theorem getAction_stage (c : Cfg) (s : St) (t : Int) (i : In) (hinv : Inv s) :
+    Allowed c s.cur (getAction c s t i).1.cur ∧ Inv (getAction c s t i).1 := by
+  unfold getAction
+  split
+  · exact ⟨Or.inl rfl, hinv⟩
+  · rename_i hex
+    have hcon : s.concluded = false := by
+      simp [executes] at hex; exact hex.2
+    split
+    · exact ⟨Or.inl rfl, hinv⟩
+    · rename_i h _
+      split
+      · rename_i hp
+        by_cases hf : s.cur = .failed
+        · -- a FAILED agent whose last response passes: the response was a success, the handler is the identity
+          have : returnHandler c h s = s := by
+            unfold returnHandler at hp ⊢
+            split
+            · rename_i hcond; rw [if_pos hcond] at hp; simp [passes, hcond.1] at hp
+            · rfl
+          simp only [this]
+          exact mainPath_stage c s t i hinv hcon
+        · simp only [passes_returnHandler c h s hp hf]
+          exact mainPath_stage c s t i hinv hcon
+      · exact failPath_stage c h s t i hinv hcon
+
+theorem C19_tap1_stage_step (c : Cfg) (s : St) (t : Int) (i : In) (hinv : Inv s) :
+    Allowed c s.cur (step c s t i).1.cur ∧ Inv (step c s t i).1 := by
+  unfold step
+  split
+  · exact ⟨Or.inl rfl, hinv⟩
+  · split
+    · exact ⟨Or.inl rfl, hinv⟩
+    · have := getAction_stage c s t i hinv
+      exact ⟨this.1, this.2⟩
+
+end Tap1
+
 end Primaite.Agents
